@@ -8,10 +8,10 @@
    TimeoutRetxA/B, TimeoutMonA/B of Model/Ertm.v): ALL statements below hold for ALL
    schedules, timers included (the model is of the code after fixes/D08.patch and
    fixes/D08t.patch).  The two FIFO channels neither lose nor reorder frames. *)
-From Coq Require Import ZArith List Bool.
-From BV Require Import Model.Crc16 Model.Ertm Model.L2capConfig Gen.C08Tables.
+From Coq Require Import ZArith List Bool Lia.
+From BV Require Import Model.Crc16 Model.Ertm Model.L2capConfig Model.L2capShape Gen.C08Tables Gen.C08Shape.
 From BV Require Import Proofs.ErtmSeg Proofs.Ertm Proofs.ErtmWire Proofs.ErtmLive Proofs.ErtmForeign.
-From BV Require Import Proofs.L2capConfig.
+From BV Require Import Proofs.L2capConfig Proofs.L2capShape.
 Import ListNotations.
 Open Scope Z_scope.
 
@@ -274,9 +274,35 @@ Example C08_nonvacuous_foreign :
   nfinals out = 1 /\ e_busy e = false.
 Proof. vm_compute. repeat split. Qed.
 
+(* hypotheses of C08_frames_wf / C08_wire_roundtrip are satisfiable: a START frame of a
+   300-byte SDU, with FCS *)
+Example C08_nonvacuous_wire :
+  sdus_small [WriteA (repeat 1 300); DeliverAB; TimeoutRetxA] /\
+  frame_wf (IFrame 5 63 START 300 [1; 2; 3] true) /\
+  dec_pdu true (enc_pdu true 64 (enc_frame (IFrame 5 63 START 300 [1; 2; 3] true))) =
+    Some (64, enc_frame (IFrame 5 63 START 300 [1; 2; 3] true)).
+Proof. split; [cbn; lia|]. split; [cbn; lia|]. vm_compute. reflexivity. Qed.
+
 (* FCS requested by A, B without the FCS option: ends OPEN/OPEN without FCS *)
 Example C08_nonvacuous_setup_fcs :
   let s := crun (cinit (mkSpec Ertm true true) (mkSpec Ertm false false) true)
                 [DAB; DBA; DBA; DAB; DAB; DBA; DBA; DAB; DAB; DBA; DAB; DBA] in
   terminal s = true /\ open_ok s = true /\ c_fcs (k_a s) = false.
 Proof. vm_compute. repeat split. Qed.
+
+(* ---------- shape of the source ---------- *)
+From Coq Require Import String.
+Open Scope string_scope.
+(* The shape of the 38 functions the models were read from - every control-flow test,
+   assignment, return / raise and non-logging call, in order, as canonical text
+   (tools/translate/c08_shape.py), regenerated from the current source on every run -
+   is the recorded reading Model/L2capShape.v.  So: the mod-64 arithmetic of
+   _get_next_tx_seq / on_pdu / _update_ack_seq, the window subtraction and the two guards
+   of _process_output, the SAR selection tests of send_sdu, the place where
+   _update_ack_seq is called, the RR emission test, the P/F handling, the control-field
+   shifts and masks, the span of the FCS, the states each configuration handler moves to
+   and the options it sends are what the models say they are.  A failure names the function,
+   the line index and both texts. *)
+Theorem C08_shape_matches_source : src_shape = model_shape.
+Proof. apply shape_diff_sound. vm_compute. reflexivity. Qed.
+Print Assumptions C08_shape_matches_source.
